@@ -229,7 +229,9 @@ def build_operators(spec_ops, params, joint):
         ops.append(op)
     for o, op in zip(spec_ops, ops):
         # the window length the object really has (from_json applies the JSON layer's default)
-        o["window_len"] = window_length(op)
+        explicit = o.get("window_len") if o.get("via") != "json" else None
+        # configured length when the run names one (public knowledge); otherwise what the object holds, found by role
+        o["window_len"] = explicit if explicit is not None and o["kind"] != "stub" else window_length(op)
     return ops
 
 
@@ -384,10 +386,18 @@ def op_public(op):
 def window_length(op):
     """length of the acceptance window, found by ROLE: the instance attribute that bounds the deque appended to by
     accept()/reject() — whatever it is called — is the one whose name mentions both 'window' and 'length'"""
-    for k, v in vars(op).items():
-        if "window" in k and "length" in k:
-            return int(v)
-    return 100
+    def scan(obj, depth):
+        for k, v in list(getattr(obj, "__dict__", {}).items()):
+            if "window" in k and "length" in k and isinstance(v, (int, bool)):
+                return int(v)
+            if depth and hasattr(v, "__dict__") and not callable(v) and type(v).__module__.startswith("torchtree"):
+                r = scan(v, depth - 1)
+                if r is not None:
+                    return r
+        return None
+
+    r = scan(op, 2)  # the operator itself or a small record object it keeps its acceptance statistics in
+    return 100 if r is None else r
 
 
 def scale_of(op):
@@ -1902,7 +1912,10 @@ def gen_cfg(rng, family, adapt, iterations):
         # an operator that never has a proposal (harness-side, returns the constants the shipped operators use for that)
         n = rng.randint(1, 2)
         t = {"kind": "normal", "loc": [0.0] * n, "scale": [1.0] * n, "init": [[rng.uniform(-1, 1) for _ in range(n)]]}
-        sent = sorted({{"posInf": "inf", "negInf": "-inf", "nan": "nan"}[x] for _c, v in tr_runorder.operator_failure_returns() for x in v})
+        try:
+            sent = sorted({{"posInf": "inf", "negInf": "-inf", "nan": "nan"}[x] for _c, v in tr_runorder.operator_failure_returns() for x in v})
+        except Exception:  # an unrecognised shape is the translator's business (obligation not discharged), never a harness crash
+            sent = []
         sent = sorted(set(sent) | {"inf", "-inf", "nan"})  # every non-finite value means "no proposal" (accept rule)
         ops = [op("window", [0], rng.uniform(0.3, 1.5)), {"kind": "stub", "pidx": [0], "weight": 1.0, "target": 0.24, "scale": 1.0,
                                                            "adapt": False, "sentinels": sent},
